@@ -310,7 +310,7 @@ fn child_replay(args: &Args, replay: &std::path::Path, out: &std::path::Path, on
 
 /// watchdog budget for one replayed case list
 fn watchdog_secs() -> u64 {
-    std::env::var("VH_WATCHDOG").ok().and_then(|v| v.parse().ok()).unwrap_or(240)
+    std::env::var("VH_WATCHDOG").ok().and_then(|v| v.parse().ok()).unwrap_or(100)
 }
 
 fn salt(args: &Args, case: usize) -> u64 {
